@@ -1133,6 +1133,7 @@ func TestCheck(t *testing.T) {
 
 	if os.Getenv("VERIF_C13_SKIP_ROUNDS") == "" {
 		ru.overlapRounds()
+		ru.extraRounds()
 	}
 
 	t1 := time.Now()
@@ -1148,6 +1149,10 @@ func TestCheck(t *testing.T) {
 	r.Require("partial_index_valid_entries_applied", 8)
 	r.Require("partial_index_duplicate_key_rounds_with_previous_version", 5)
 	r.Require("partial_index_absent_member_rounds_on_live_storage", 5)
+	r.Require("deadline_cases_realized", 3)
+	r.Require("maxsize_cases/lowered-max-size-restart", 2)
+	r.Require("maxsize_cases/oversized-file-source", 2)
+	r.Require("maxsize_lists_complete", 6)
 	r.Require("overlap_schedules_realized/"+ovFaultedLast, 4)
 	r.Require("overlap_schedules_realized/"+ovFaultedFirst, 4)
 	r.Require("kills", 90)
